@@ -68,6 +68,10 @@ type Rule struct {
 
 func (r *Rule) Prepare() {
 	if len(r.Values) == 0 {
+		// no values: nothing matches (the rule must not make Match panic)
+		r.minValueSize = 0
+		r.maxValueSize = 0
+		r.prepared = true
 		return
 	}
 
